@@ -94,11 +94,19 @@ func (x *Xlat) load(st *State, p Place) *Term {
 			}
 			return App("mk_"+srt, srt, args...)
 		}
-		return Sel(x.heapOf(st, fieldKey(p.T, p.names), p.typ), p.ref)
+		v := Sel(x.heapOf(st, fieldKey(p.T, p.names), p.typ), p.ref)
+		if x.nn && v.Sort == SRef && nnField[fieldKey(p.T, p.names)] {
+			st.assume(Not(Eq(v, TNull))) // A11: edge ends are never nil
+		}
+		return v
 	case PElem:
 		es := x.tm.SortOf(p.typ)
 		h := x.get(st, elemsKey(es), elemsSort(es))
-		return x.atTerm(h, p.sl, p.idx, es)
+		v := x.atTerm(h, p.sl, p.idx, es)
+		if x.nn && es == SRef && x.graphListProv(p.sl, 0) {
+			st.assume(Not(Eq(v, TNull))) // A11: the graph's node, edge, layer and adjacency lists hold no nil
+		}
+		return v
 	case PMapElem:
 		ks, vs := x.tm.SortOf(p.kt), x.tm.SortOf(p.vt)
 		h := x.get(st, mapValKey(ks, vs), ArrSort(SRef, ArrSort(ks, vs)))
@@ -945,4 +953,56 @@ func (x *Xlat) initMap(st *State, m *Term, mt *types.Map) {
 	x.set(st, vk, Sto(hv, m, App("(as const "+ArrSort(ks, vs)+")", ArrSort(ks, vs), zero)))
 	hl := x.get(st, mapLenKey, ArrSort(SRef, SInt))
 	x.set(st, mapLenKey, Sto(hl, m, IntLit(0)))
+}
+
+// A11 (view C01): non-nil discipline of the graph structure. Established by Populate (proved: every edge and node it
+// lists is non-nil with non-nil ends) and by the code that extends the lists (breakEdge, phase2.Alg.Process,
+// subgraph); assumed wherever a value is read from one of these places.
+var nnField = map[string]bool{"H$graph.Edge.edge.From": true, "H$graph.Edge.edge.To": true}
+
+var nnListPrefix = []string{"H$graph.DGraph.Nodes", "H$graph.DGraph.Edges", "H$graph.DGraph.Layers", "H$graph.Node.In", "H$graph.Node.Out", "H$graph.Layer.Nodes"}
+
+// graphListProv: the slice value was read from one of the graph's list fields (possibly through definitions, merges,
+// range snapshots or re-slicing).
+func (x *Xlat) graphListProv(t *Term, depth int) bool {
+	if depth > 8 {
+		return false
+	}
+	if len(t.Args) == 0 {
+		if d, ok := x.ctx.defs[t.Op]; ok {
+			return x.graphListProv(d, depth+1)
+		}
+		return false
+	}
+	switch t.Op {
+	case "select":
+		h := t.Args[0]
+		for len(h.Args) > 0 && (h.Op == "store" || h.Op == "ite") {
+			if h.Op == "store" {
+				h = h.Args[0]
+			} else {
+				h = h.Args[1]
+			}
+		}
+		name := h.Op
+		if d, ok := x.ctx.defs[name]; ok && len(h.Args) == 0 {
+			// defined heap version: H$...!k names keep the region prefix
+			_ = d
+		}
+		for _, p := range nnListPrefix {
+			if strings.HasPrefix(name, sanitize(p)) || strings.HasPrefix(name, "m$"+sanitize(p)) {
+				return true
+			}
+		}
+		return false
+	case "ite":
+		return x.graphListProv(t.Args[1], depth+1) && x.graphListProv(t.Args[2], depth+1)
+	case "mk_Slice":
+		// re-slicing keeps the array: s_arr(X)
+		a := t.Args[0]
+		if a.Op == "s_arr" && len(a.Args) == 1 {
+			return x.graphListProv(a.Args[0], depth+1)
+		}
+	}
+	return false
 }
